@@ -20,7 +20,7 @@ ID = "C13"
 PROPS = ["props/C13.v"]
 EXTRACTS = ["C13"]
 THEOREMS = [
-    "C13_patch_py_shape", "C13_generated_lists_ok", "C13_listed_are_patched",
+    "C13_patch_py_shape", "C13_generated_lists_ok", "C13_listed_are_patched", "C13_new_values_fresh", "C13_mutable_contents_partial",
     "C13_setup_py_partial", "C13_setup_py_all_programs_partial", "C13_process_survives_os_exit",
     "C13_early_return_restores", "C13_pyproject_partial", "C13_project_files_untouched_partial",
     "C13_pyproject_argv_restored", "C13_patch_none_refuted", "C13_delete_created_attr_refuted",
@@ -352,6 +352,8 @@ SAFE_ABSENT = [("os", "symlink"), ("requests", "Session"), ("subprocess", "check
                ("os", "rename"), ("sys", "stdin")]
 CAN_BE_PRESENT = [("os", "getcwdu"), ("imp", "load_source")]
 CALLED_KEYS = [("os", "_exit"), ("os", "chdir"), ("os.path", "abspath")]
+# attributes whose value the scripts also edit IN PLACE (lists / script objects only ever sit there)
+MUTABLE_KEYS = [("sys", "argv"), ("sys", "argv"), ("os", "c13_extra"), ("sys", "c13_extra")]
 RAISE_CLS = ["ValueError", "RuntimeError", "ImportError", "KeyError", "KeyboardInterrupt"]
 
 
@@ -367,6 +369,10 @@ def gen_ops(rng, keys: List[Tuple[str, str]], cython: bool, n: int, case_id: int
     for j in range(n):
         r = rng.random()
         k = rng.choice(hot) if (hot and rng.random() < 0.3) else rng.choice(usable)
+        if rng.random() < 0.10:
+            mk = rng.choice(MUTABLE_KEYS)
+            ops.append(["M", mk[0], mk[1], rng.randrange(1, 99)])
+            continue
         if r < 0.40:
             q = rng.random()
             if q < 0.2:
@@ -377,6 +383,8 @@ def gen_ops(rng, keys: List[Tuple[str, str]], cython: bool, n: int, case_id: int
                 src = rng.choice(usable)
                 if k in CALLED_KEYS and src != k:
                     src = k
+                if k in MUTABLE_KEYS and src not in MUTABLE_KEYS:
+                    src = rng.choice(MUTABLE_KEYS)
                 pv = ["C", src[0], src[1]]
             ops.append(["W", k[0], k[1], pv])
         elif r < 0.58:
@@ -504,6 +512,8 @@ def prog_tokens(case: Dict[str, Any], root: str) -> str:
             ops += ["R", hx(o[1])]
         elif t == "S":
             ops += ["S", hx(root if o[1] == "@ROOT" else o[1])]
+        elif t == "M":
+            ops += ["M", hx(o[1]), hx(o[2]), str(o[3])]
     return " ".join([str(n)] + ops + [case["ending"]])
 
 
@@ -793,7 +803,7 @@ def coq_state(init_line: str) -> Tuple[str, List[Tuple[str, str]]]:
     for _ in range(int(nxt())):
         n_, k = common.unhx(nxt()), nxt()
         mods.append("(%s, %s)" % (coq_str(n_), {"P": "KPlain", "F": "KFake", "J": "KProj"}[k]))
-    st = "(mkSt [%s] %s %s [%s] [%s] [%s])" % ("; ".join(attrs), coq_str(cwd), coq_str(cwd), "; ".join(coq_str(p) for p in path),
+    st = "(mkSt [%s] %s %s [%s] [%s] [%s] [])" % ("; ".join(attrs), coq_str(cwd), coq_str(cwd), "; ".join(coq_str(p) for p in path),
                                                    "; ".join(m + "%N" for m in meta), "; ".join(mods))
     return st, keys
 
@@ -829,6 +839,9 @@ def coq_prog(case: Dict[str, Any], root: str) -> str:
             ops.append("OModDel %s" % coq_str(common.unhx(nxt())))
         elif t == "S":
             ops.append("OPathIns %s" % coq_str(common.unhx(nxt())))
+        elif t == "M":
+            k = key()
+            ops.append("OMutate %s %s" % (k, nxt()))
     en = {"finish": "Finish", "raise": "Raise", "sysexit": "SysExit", "osexit": "OsExit"}[nxt()]
     return "([%s], %s)" % ("; ".join(ops), en)
 
@@ -847,13 +860,14 @@ Definition kind_eqb (a b : mkind) : bool :=
   match a, b with KPlain, KPlain | KFake, KFake | KProj, KProj => true | _, _ => false end.
 Definition msub (a b : mmap) : bool :=
   forallb (fun x => existsb (fun y => String.eqb (fst x) (fst y) && kind_eqb (snd x) (snd y)) b) a.
-Definition agrees (r : result) (keys : list key) (ev : list (option value)) (ecwd : string)
-           (epath : list string) (emeta : list N) (emods : mmap) : bool :=
+Definition agrees (r : result) (s0 : st) (keys : list key) (ev : list (option value)) (ecwd : string)
+           (epath : list string) (emeta : list N) (emods : mmap) (ec : list N) : bool :=
   match r with
   | Dead => false
   | Alive s =>
       l_eqb ov_eqb (map (fun k => unfake (get k s)) keys) ev && String.eqb (cwd s) ecwd
       && l_eqb String.eqb (path s) epath && l_eqb N.eqb (meta s) emeta && msub (mods s) emods && msub emods (mods s)
+      && l_eqb N.eqb (map (fun k => match get k s0 with None | Some VNone => 0 | o => content o s end) keys) ec
   end.
 """
 
@@ -873,6 +887,7 @@ def coq_recheck(ctx: Ctx, sample: List[Tuple[Dict[str, Any], Dict[str, Any], Opt
         emeta = "; ".join(t + "%N" for t in parts[3].split())
         emods = "; ".join("(%s, %s)" % (coq_str(common.unhx(t.split(":")[0])), {"P": "KPlain", "F": "KFake", "J": "KProj"}[t.split(":")[1]])
                           for t in (parts[4].split() if len(parts) > 4 else []))
+        ec = "; ".join(("0" if t == "-" else t) + "%N" for t in (parts[5].split() if len(parts) > 5 else []))
         kl = "; ".join("(%s, %s)" % (coq_str(m), coq_str(a)) for m, a in keys)
         prog = coq_prog(c, r["root"])
         if c["kind"] == "pyproject":
@@ -880,7 +895,9 @@ def coq_recheck(ctx: Ctx, sample: List[Tuple[Dict[str, Any], Dict[str, Any], Opt
         else:
             call = "analyse %s 999 %s %s %s %s" % (coq_str(r["root"]), "true" if c["init"].get("cython") else "false",
                                                     "true" if c.get("early") else "false", prog, st)
-        body.append("Definition c%d : bool := agrees (%s) [%s] [%s] %s [%s] [%s] [%s]." % (idx, call, kl, ev, ecwd, epath, emeta, emods))
+        body.append("Definition s%d : st := %s." % (idx, st))
+        call = call.replace(st, "s%d" % idx)
+        body.append("Definition c%d : bool := agrees (%s) s%d [%s] [%s] %s [%s] [%s] [%s] [%s]." % (idx, call, idx, kl, ev, ecwd, epath, emeta, emods, ec))
         names.append("c%d" % idx)
     body.append("Definition bad := filter (fun p => negb (snd p)) (combine (seq 0 %d) [%s])." % (len(names), "; ".join(names)))
     body.append("Eval vm_compute in (List.length bad, map fst bad).")
@@ -990,6 +1007,9 @@ def oracle(case: Dict[str, Any], rec: Dict[str, Any], strict: bool = False) -> O
         return "sys.modules changed (project or fake modules left behind, or host modules removed)"
     if rec["untracked_mods"]:
         return "sys.modules changed: " + ",".join(rec["untracked_mods"][:3])
+    for k, c in zip(keys, parts[5].split() if len(parts) > 5 else []):
+        if c not in ("-", "0"):
+            return "the object %s.%s held before the analysis was edited in place (same object, other contents)" % (k[0], k[1])
     if not rec["project_same"]:
         return "the project's files changed"
     if not rec.get("argv_same", True):
@@ -1046,6 +1066,15 @@ def search(ctx: Ctx) -> Optional[Dict[str, Any]]:
             c.update({"kind": "pyproject", "packaging": "dir", "name": "c13p%d" % i,
                       "init": {"captured": True, "host_mods": [], "cwd_in_project": False}, "imports": [], "fops": [],
                       "ops": [["W", m, a, ["G", 7]]], "setup_at": 0, "ending": en})
+            c.pop("early", None)
+            directed.append(c)
+            i += 1
+    for kind in ("pyproject", "setup"):
+        for en in ("finish", "raise", "sysexit"):
+            c = gen_case(rng, i, keys, real_fallback=False)
+            c.update({"kind": kind, "packaging": "dir", "name": "c13p%d" % i,
+                      "init": {"captured": True, "host_mods": [], "cwd_in_project": False}, "imports": [], "fops": [],
+                      "ops": [["M", "sys", "argv", 7]], "setup_at": 0, "ending": en})
             c.pop("early", None)
             directed.append(c)
             i += 1
